@@ -13,7 +13,9 @@
      own `<` (two ints exactly, every other pair as doubles).  With a NaN in the list only membership
      is claimed.
    * shifts by an amount outside 0..63 yield some integer (which one is not claimed).
-   * `str::substring(s, a, x)` with a < 0 and x not an int: either error class is accepted. *)
+   * `str::substring(s, a, x)` with a < 0 and x not an int: either error class is accepted.
+   * `contains` / `contains_any`: README's "any non-tuple" is read as string, number or boolean; the
+     empty value `()` is rejected with the same TypeError as a tuple (the code lists four types). *)
 From Coq Require Import Strings.String Floats.SpecFloat.
 Require Import Model.Base Model.Syntax Model.F64 Model.Lexer Model.Value.
 Require Import Spec.OpTable.
